@@ -1,1 +1,4 @@
 pub mod css;
+pub mod canon;
+pub mod imports;
+pub mod media;
